@@ -92,6 +92,10 @@ func (a *Application) providerProxyHandler(w http.ResponseWriter, r *http.Reques
 	}
 
 	if len(endpoints) == 0 {
+		if status := routingRejectionStatus(pr); status != 0 {
+			a.writeRoutingRejection(w, pr, status)
+			return
+		}
 		http.Error(w, fmt.Sprintf("No %s endpoints available", providerType), http.StatusNotFound)
 		return
 	}
